@@ -121,6 +121,32 @@ theorem session_history_irrelevant_fdtw (pow : α → α → α) (G : Geom α) (
           rw [hh, session_history_irrelevant_fdtw pow G root ofNat big rest _ hnone (hrest _ hsubnone), hmapnone]
           rfl
 
+omit [Div α] [Neg α] [OfNat α 1] [OfScientific α] in
+/-- T5b for **any accumulation**: whatever `w` (a callable `p` of any shape, `B**p` wrapped in int64, …) and whatever the point distance
+(negative values of a callable `dim` included), when `big` is above the accumulated cost of every partial coupling (`FastBig`) the fast
+variant succeeds and the matching it returns is a monotone unit-step coupling from the first to the last pair, **its accumulated cost is
+the reported score**, `nb_links` and the `pair` feature describe it, and nobody is left out. (That the score is the optimum needs the
+accumulation monotone and inflationary: `fdtw_equal`.) -/
+theorem fdtw_path_any (dist : Pt α → Pt α → α) (big : α) (w : α → α → α) (t1 t2 : List (Pt α))
+    (h1 : 0 < t1.length) (h2 : 0 < t2.length) (hbig : FastBig big w dist t1 t2) :
+    ∃ out, fdtw dist big w t1 t2 = some out ∧
+      IsCouplingOf t1.length t2.length out.S ∧
+      costBack w 0 (Dmat dist t1 t2) out.S = out.score ∧
+      out.nbLinks = out.S.length ∧ out.rows.length = t1.length ∧
+      (∀ s ∈ out.S, s.1 < t2.length ∧ s.2 < t1.length) ∧
+      (∀ j, j < t1.length → ∃ r : Row α, out.rows[j]? = some r ∧ (∀ i, i ∈ r.pair ↔ (i, j) ∈ out.S) ∧ r.pair ≠ []) ∧
+      (∀ i, i < t2.length → ∃ (j : Nat) (r : Row α), out.rows[j]? = some r ∧ i ∈ r.pair) := by
+  obtain ⟨S, rows, he, hbp, hhd, hl, hp⟩ := fdtw_struct dist big w t1 t2 h1 h2 hbig
+  obtain ⟨r1, r2, r3⟩ := rows_pairs S t1.length t2.length rows hbp hhd h1 h2 hl hp
+  exact ⟨_, he, ⟨hbp, hhd⟩, rfl, rfl, hl, r1, r2, r3⟩
+
+/-- a call is one the fast variant is good for as soon as `big` is above every partial coupling cost, for whatever `_p2weight` and
+`_distance` return: no monotonicity, no sign condition -/
+theorem fast_call_ok_any (pow : α → α → α) (G : Geom α) (big : α) (p : PArgX α) (dim : DimArg α) (t1 t2 : List (Pt α))
+    (hbig : ∀ w dist, p2weightX pow p.exponent = .ok w → distanceOf G dim = .ok dist → FastBig big w dist t1 t2) :
+    FastCallOK pow G big p dim t1 t2 :=
+  fun w dist hw hd => Or.inr (hbig w dist hw hd)
+
 /-- the single call, any form of `p` (number of any type, callable; exponent any positive number): `match(m, track2, FDTW, p, dim)`
 on a track `m` that carries the feature rows of an earlier matching is `match` on the same positions without features, for a call
 the fast variant is good for (generalises `match_fdtw_history`, which is about a Python number `p ∈ {0, 1, 2, …, inf}`) -/
@@ -149,7 +175,7 @@ theorem fast_call_ok (pow : α → α → α) (G : Geom α) (big : α) (p : PArg
     FastCallOK pow G big p dim t1 t2 := by
   intro w dist hw hd
   obtain ⟨e, rfl, hx⟩ := p2weightX_ok pow p.exponent w hw
-  refine ⟨fun a b d h => weightX_mono pow e a b d h, ?_, hbig _ dist hw hd⟩
+  refine Or.inl ⟨fun a b d h => weightX_mono pow e a b d h, ?_, hbig _ dist hw hd⟩
   intro a i j _ _
   cases e with
   | norm v => exact weight_infl v a _ (hnn dist hd _ _)
@@ -238,7 +264,7 @@ example (pow : ℚ → ℚ → ℚ) :
     intro p q
     simp only [distance, ↓reduceIte]
     split_ifs <;> linarith
-  refine ⟨fun a b d h => weight_mono _ a b d h, fun a i j _ _ => weight_infl _ a _ (hnn _ _), ?_⟩
+  refine Or.inl ⟨fun a b d h => weight_mono _ a b d h, fun a i j _ _ => weight_infl _ a _ (hnn _ _), ?_⟩
   intro i j i' j' hi hj hi' hj'
   have hi0 : i = 0 := by simpa using hi
   have hi0' : i' = 0 := by simpa using hi'
@@ -273,6 +299,31 @@ example :
         | .matched o => o.rows.map (fun r => r.diff.getD 5)
         | _ => [])
     = [[1, 0], [0, 2]] := by decide +kernel
+
+/-- `FastBig` is satisfiable, by an accumulation that is neither monotone nor inflationary (`w A B = B - A`: the alternating sum along
+the coupling) on heights `0, 2` against `1`: the partial coupling costs are `1` at `(0,0)` and `1 - 1 = 0` at `(0,1)`, below `big = 1000`;
+and the run of the fast variant on it returns a coupling whose accumulated cost is the score, as `fdtw_path_any` says -/
+example : FastBig (α := ℚ) 1000 (fun a d => d - a) (distance id 1) [⟨0, 0, 0⟩, ⟨0, 0, 2⟩] [⟨0, 0, 1⟩] := by
+  intro i j c hi hj hc
+  have hi0 : i = 0 := by simpa using hi
+  subst hi0
+  have hj2 : j = 0 ∨ j = 1 := by simp at hj; omega
+  have hD0 : Dmat (α := ℚ) (distance id 1) [⟨0, 0, 0⟩, ⟨0, 0, 2⟩] [⟨0, 0, 1⟩] 0 0 = 1 := by decide +kernel
+  have hD1 : Dmat (α := ℚ) (distance id 1) [⟨0, 0, 0⟩, ⟨0, 0, 2⟩] [⟨0, 0, 1⟩] 0 1 = 1 := by decide +kernel
+  have h00 : ∀ c, Coupling (fun a d : ℚ => d - a) 0 (Dmat (distance id 1) [⟨0, 0, 0⟩, ⟨0, 0, 2⟩] [⟨0, 0, 1⟩]) 0 0 c → c = 1 := by
+    intro c h
+    cases h
+    simp [hD0]
+  rcases hj2 with rfl | rfl
+  · rw [h00 c hc]; norm_num
+  · cases hc with
+    | right h =>
+      rw [h00 _ h]
+      simp [hD1]
+example :
+    (fdtw (α := ℚ) (distance id 1) 1000 (fun a d => d - a) [⟨0, 0, 0⟩, ⟨0, 0, 2⟩] [⟨0, 0, 1⟩]).map
+      (fun o => (o.score, o.S, decide (costBack (fun a d : ℚ => d - a) 0 (Dmat (distance id 1) [⟨0, 0, 0⟩, ⟨0, 0, 2⟩] [⟨0, 0, 1⟩]) o.S = o.score)))
+    = some (0, [(0, 1), (0, 0)], true) := by decide +kernel
 
 /-- the monitor accepts a concrete pair of tracks (heights `0, 2, 1` against `1, 3`, `dim = 1`, `p = 2`, `big = 1000`) and rejects it
 when `big = 5` is below a candidate cost — `fast_hyp_check_sound` is not vacuous and the check is not constantly true -/
